@@ -374,4 +374,12 @@ def adhocStr (doc name : CStr) (defaultIsNone : Bool) : Except String (Option CS
   | .ok r => .ok (r.map v)
   | .error e => .error e
 
+/-- decidable equality of results, so that concrete instances can be checked by `decide` -/
+instance : DecidableEq (Except String (Option CStr)) := fun a b =>
+  match a, b with
+  | .ok x, .ok y => if h : x = y then isTrue (by rw [h]) else isFalse (by intro e; cases e; exact h rfl)
+  | .error x, .error y => if h : x = y then isTrue (by rw [h]) else isFalse (by intro e; cases e; exact h rfl)
+  | .ok _, .error _ => isFalse (by intro e; cases e)
+  | .error _, .ok _ => isFalse (by intro e; cases e)
+
 end Adhoc
